@@ -51,6 +51,9 @@ THEOREMS = [
     "HappyModel.C19.Win.mem_specWindows_iff",
     "HappyModel.C19.Win.stats_conservation",
     "HappyModel.C19.Win.window_records_accounted_once",
+    "HappyModel.C19.Win.window_records_accounted_once_full",
+    "HappyModel.C19.Win.window_core_clauses_all_kinds",
+    "HappyModel.C19.Win.session_judge_needs_distinct_ids",
     "HappyModel.C19.Win.session_records_conserved",
     "HappyModel.C19.Win.session_records_within_gap_together",
     "HappyModel.C19.Win.judge_rejects_double_emission",
@@ -77,18 +80,13 @@ ASSUMPTIONS = [
     "the judge takes the published watermark_s as given and requires only max(incoming, current))",
 ]
 HYPOTHESES = [
+    "win: window_records_accounted_once_full, session windows: the record ids of the schedule are distinct (procIds sched Nodup) — the judge identifies the members of "
+    "an emitted session by id; `session_judge_needs_distinct_ids` shows the hypothesis cannot be dropped; the harness numbers the records 0, 1, 2, …; tumbling / sliding "
+    "windows and the core clauses of all kinds need no such hypothesis (window_core_clauses_all_kinds)",
     "win: the engine resumes `yield 0.0` at the same instant and delivers returned events (C01/C02); the end-of-run clause "
     "'the watermark daemon fired within one interval of the end' is judged on the real run, not proved (the schedule is an input of the model)",
 ]
-PARTIAL = {
-    "HappyModel.C19.Win.window_records_accounted_once":
-        "full statement = `window_records_accounted_once_full` (all window kinds against core + extra clauses). Proved: tumbling and sliding "
-        "windows, every policy / lateness / schedule, against all core clauses (late classification, counters, watermark, results = records owed, "
-        "no result without a new record, no closed window left out, side output). Not proved, but executed on every generated case: the "
-        "active_windows count, and for session windows the clauses bounds = [min, max+gap], gap-connected, maximal, closed sessions emitted "
-        "(for sessions `session_records_conserved` proves that no record is lost or duplicated and `session_records_within_gap_together` that every "
-        "session spans its records and records within the gap are never in different active sessions)",
-}
+PARTIAL = {}   # `window_records_accounted_once_full` is proved: every window kind against core + extra clauses
 
 KINDS = ["tumbling", "sliding", "session"]
 POLS = ["drop", "side", "update"]
